@@ -20,7 +20,8 @@ import (
 type NamedStr string
 
 type Person struct {
-	Id    int64 `sql:",primary"`
+	Id    int64  `sql:",primary"`
+	Memo  string `sql:"-"` // not a column: the columns after it sit at another struct index than their column order
 	Age   *int64
 	City  string
 	Score int32
